@@ -153,6 +153,7 @@ def run_prop(prop, tier):
             if r.res['status'] == 'ok' and bres.ok and wf.oracle_readable(r, chk, prop.lower()):
                 if prop == 'C07':
                     oracle_references(chk, r)
+                    wf.oracle_fidelity(r, chk, references_only=True)
                 else:
                     oracle_order_whole(chk, r)
     if prop == 'C18':
@@ -180,6 +181,46 @@ def run_prop(prop, tier):
         wf.run_noformat_oracle(rr, model, bres, chk)
         for f in chk.failures[before:]:
             f['key'] = 'rewrite:' + f['key']
+    if prop == 'C18':
+        # logical files whose channels were given their data at creation under the SAME data set names, plus a dict handed
+        # to write() (an unused extra data set, or data for a channel of one logical file only): every logical file is
+        # written from its own data; without an overriding entry the file is the one written without the dict
+        import numpy as np
+        from dliswriter import DLISFile
+        R18b = rng('C18', 'same-dataset-names')
+        tmpd = tempfile.mkdtemp(prefix='verif_c18d_')
+        try:
+            for i in range(10 if tier == 'quick' else 80):
+                n_lf = R18b.choice([2, 3])
+                rows = [R18b.choice([3, 5, 6]) for _ in range(n_lf)] if R18b.random() < 0.5 else [4] * n_lf
+
+                def make():
+                    df = DLISFile(set_identifier='SAMEDS')
+                    for k in range(n_lf):
+                        lf = df.add_logical_file(fh_id=f'LF{k}', fh_sequence_number=k + 1)
+                        lf.add_origin(f'O{k}', set_name=f'S{k}', file_set_number=1, creation_time='2020/01/01 00:00:00')
+                        d = lf.add_channel('DEPTH', set_name=f'S{k}', data=np.arange(rows[k], dtype=np.float64) + 1000 * (k + 1))
+                        g = lf.add_channel('GR', set_name=f'S{k}', data=(np.arange(rows[k]) * (k + 2)).astype(np.float32))
+                        lf.add_frame('MAIN', set_name=f'S{k}', channels=[d, g])
+                    return df
+                p0, p1 = f'{tmpd}/a.dlis', f'{tmpd}/b.dlis'
+                s0, e0 = call(make().write, p0, output_chunk_size=2**20)
+                extra = {'UNUSED': np.arange(7, dtype=np.float32)}
+                s1, e1 = call(make().write, p1, data=extra, output_chunk_size=2**20)
+                case = {'logical_files': n_lf, 'rows': rows, 'channels': 'DEPTH, GR in every logical file, data given at add_channel',
+                        'write_data': "{'UNUSED': ...}"}
+                chk.case('same-dataset-names', nontrivial_key=('sd', i), sample=dict(case, plain=s0, with_dict=s1))
+                if s0 != 'ok':
+                    continue
+                if s1 != 'ok':
+                    chk.fail('isolation:data-of-another-logical-file', case, f'with an unrelated dict handed to write() the write raises {e1}')
+                elif open(p0, 'rb').read() != open(p1, 'rb').read():
+                    chk.fail('isolation:data-of-another-logical-file', case, 'with an unrelated dict handed to write() the file differs '
+                                                                            'from the one written without it (rows of another logical file)')
+                if list(extra) != ['UNUSED']:
+                    chk.fail('isolation:caller-dict-filled', case, f'the dict handed to write() now has the keys {sorted(extra)}')
+        finally:
+            shutil.rmtree(tmpd, ignore_errors=True)
     if prop == 'C09':
         # record order and record types as a whole: file bytes vs modelWrite on the live description
         wf.modelwrite_stream('C09', tier, model, bres, chk, 60, 500)
